@@ -78,6 +78,14 @@ example : derefIndices (dimMult [2, 3]).1 [5, -1] = .error 1 := by decide
 example : derefIndices (dimMult [2, 3]).1 [1, 2] = .ok 5 := by decide
 
 
+theorem sliceRange_eq_pinned (a b c d : Int) (hc : 0 ≤ c) (hd : 0 ≤ d) :
+    sliceRange a b c d = sliceRangePinned a b c d := by
+  have : ¬ (c < 0 ∨ d < 0) := by omega
+  simp [sliceRange, this]
+
+theorem sliceRange_neg (a b c d : Int) (h : c < 0 ∨ d < 0) : sliceRange a b c d = none := by
+  simp [sliceRange, h]
+
 theorem range_denotation_partial (a b c d : Int) (hc : 0 ≤ c) (hd : 0 ≤ d) :
     (∀ r1 r2 : Int, sliceRange a b c d = some (r1, r2) ↔
         (c < (rangeLen a b : Int) ∧ d < (rangeLen a b : Int) ∧
@@ -87,12 +95,13 @@ theorem range_denotation_partial (a b c d : Int) (hc : 0 ≤ c) (hd : 0 ≤ d) :
         ∀ k : Int, 0 ≤ k → k ≤ ((c - d).natAbs : Int) →
           0 ≤ rangePos c d k ∧ rangePos c d k < (rangeLen a b : Int) ∧
           rangePos r1 r2 k = rangePos a b (rangePos c d k)) := by
+  rw [sliceRange_eq_pinned a b c d hc hd]
   constructor
   · intro r1 r2
-    simp only [sliceRange, rangeLen, rangePos]
+    simp only [sliceRangePinned, rangeLen, rangePos]
     split <;> split <;> split <;> simp <;> omega
   · intro r1 r2
-    simp only [sliceRange, rangeLen, rangePos]
+    simp only [sliceRangePinned, rangeLen, rangePos]
     split <;> split <;> split <;> simp <;> intro h1 h2 <;> subst h1 h2 <;>
       (refine ⟨by omega, ?_⟩; intro k hk0 hk; split <;> omega)
 
@@ -100,17 +109,49 @@ example : sliceRange 2 9 1 4 = some (3, 6) ∧ sliceRange 9 2 4 1 = some (5, 8) 
     sliceRange 4 4 0 0 = some (4, 4) ∧ sliceRange 2 9 3 3 = some (5, 5) ∧
     sliceRange 2 9 8 0 = none ∧ sliceRange 4 4 0 1 = none := by decide
 
-/-! ## 7. range_denotation_counterexample -/
+/-! ## 6b. range_denotation, full strength (since the `fix:` commit 3ebfaa3 added the lower-bound test) -/
 
-theorem range_denotation_counterexample :
+/-- a range `[a..b]` composed with `[c..d]` is accepted iff both `c` and `d` are positions of the outer range, and
+then denotes exactly the sub-sequence of positions `c…d` — for all integers, all four direction combinations -/
+theorem range_denotation (a b c d : Int) :
+    (∀ r1 r2 : Int, sliceRange a b c d = some (r1, r2) ↔
+        (0 ≤ c ∧ 0 ≤ d ∧ c < (rangeLen a b : Int) ∧ d < (rangeLen a b : Int) ∧
+         r1 = rangePos a b c ∧ r2 = rangePos a b d)) ∧
+    (∀ r1 r2 : Int, sliceRange a b c d = some (r1, r2) →
+        rangeLen r1 r2 = rangeLen c d ∧
+        ∀ k : Int, 0 ≤ k → k ≤ ((c - d).natAbs : Int) →
+          0 ≤ rangePos c d k ∧ rangePos c d k < (rangeLen a b : Int) ∧
+          rangePos r1 r2 k = rangePos a b (rangePos c d k)) := by
+  by_cases hneg : c < 0 ∨ d < 0
+  · rw [sliceRange_neg a b c d hneg]
+    constructor
+    · intro r1 r2; constructor
+      · intro h; cases h
+      · intro h; omega
+    · intro r1 r2 h; cases h
+  · have hc : 0 ≤ c := by omega
+    have hd : 0 ≤ d := by omega
+    obtain ⟨p1, p2⟩ := range_denotation_partial a b c d hc hd
+    refine ⟨fun r1 r2 => ?_, p2⟩
+    rw [p1 r1 r2]
+    constructor
+    · intro h; exact ⟨hc, hd, h⟩
+    · intro h; exact h.2.2
+
+example : sliceRange 2 5 (-1) 1 = none ∧ sliceRange 2 5 1 (-1) = none ∧ sliceRange 5 2 (-1) 1 = none ∧
+    sliceRange 2 5 1 3 = some (3, 5) := by decide
+
+/-! ## 7. the defect that was repaired (`fix:` commit 3ebfaa3): the pinned function accepted negative inner bounds -/
+
+theorem range_denotation_pinned_counterexample :
     -- accepted although position c = -1 does not exist in [2..5]; the result starts at 1 < 2
-    sliceRange 2 5 (-1) 1 = some (1, 3) ∧ ¬ (0 ≤ (-1 : Int)) ∧ ¬ (2 ≤ (1 : Int)) ∧
+    sliceRangePinned 2 5 (-1) 1 = some (1, 3) ∧ ¬ (0 ≤ (-1 : Int)) ∧ ¬ (2 ≤ (1 : Int)) ∧
     -- same with the unchecked end on the other side (c ≥ d sub-branch checks only res_from)
-    sliceRange 2 5 1 (-1) = some (3, 1) ∧
+    sliceRangePinned 2 5 1 (-1) = some (3, 1) ∧
     -- descending outer range [5..2]: result starts at 6 > 5
-    sliceRange 5 2 (-1) 1 = some (6, 4) ∧
+    sliceRangePinned 5 2 (-1) 1 = some (6, 4) ∧
     -- the unrestricted iff of `range_denotation_partial` fails here
-    ¬ (sliceRange 2 5 (-1) 1 = some (1, 3) ↔
+    ¬ (sliceRangePinned 2 5 (-1) 1 = some (1, 3) ↔
         ((0 ≤ (-1 : Int) ∧ (-1 : Int) < (rangeLen 2 5 : Int)) ∧ (1 : Int) < (rangeLen 2 5 : Int))) := by
   decide
 
